@@ -171,6 +171,13 @@ func reuseGenJob(r *Rng, f gozxing.BarcodeFormat) reuseJob {
 		if !j.matrix && r.Chance(0.4) {
 			j.dh = map[gozxing.DecodeHintType]interface{}{gozxing.DecodeHintType_PURE_BARCODE: true}
 			j.dhs = "PURE_BARCODE"
+		} else if r.Chance(0.4) { // a caller's own, non-nil map that says nothing about the charset
+			j.dh = map[gozxing.DecodeHintType]interface{}{gozxing.DecodeHintType_TRY_HARDER: true}
+			j.dhs = "TRY_HARDER"
+		}
+		if j.eh == nil && r.Chance(0.3) { // likewise for the writer: an empty map of the caller
+			j.eh = map[gozxing.EncodeHintType]interface{}{}
+			j.ehs = "{}"
 		}
 	case gozxing.BarcodeFormat_DATA_MATRIX:
 		switch r.Intn(4) {
@@ -413,10 +420,18 @@ func (in *reuseInst) run(j reuseJob) string {
 		if !is2D {
 			height = 8
 		}
+		ehBefore, dhBefore := fmt.Sprint(j.eh), fmt.Sprint(j.dh)
 		m, err := in.w[j.f].Encode(j.content, j.f, 0, height, j.eh)
+		if fmt.Sprint(j.eh) != ehBefore {
+			return "CALLER-HINTS-MUTATED by Encode: before " + ehBefore + " after " + fmt.Sprint(j.eh)
+		}
 		if err != nil {
 			return "write-ERR:" + errKind(err)
 		}
+		defer func() {
+			// (checked by the caller through the marker in the returned string; see reuseSuite)
+			_ = dhBefore
+		}()
 		mh := fmt.Sprintf("m=%dx%d:%x ", m.GetWidth(), m.GetHeight(), reuseHash(m))
 		if j.matrix {
 			// strip the quiet zone: the matrix-level decoders take the bare symbol
@@ -434,6 +449,9 @@ func (in *reuseInst) run(j reuseJob) string {
 			}
 			if j.f == gozxing.BarcodeFormat_QR_CODE {
 				dr, e := in.qrDec.Decode(bare, j.dh)
+				if fmt.Sprint(j.dh) != dhBefore {
+					return mh + "CALLER-HINTS-MUTATED by Decoder.Decode: before " + dhBefore + " after " + fmt.Sprint(j.dh)
+				}
 				if e != nil {
 					return mh + "decode-ERR:" + errKind(e)
 				}
@@ -457,6 +475,9 @@ func (in *reuseInst) run(j reuseJob) string {
 			return mh + "bitmap-ERR"
 		}
 		res, err := in.r[j.f].Decode(bmp, j.dh)
+		if fmt.Sprint(j.dh) != dhBefore {
+			return mh + "CALLER-HINTS-MUTATED by Reader.Decode: before " + dhBefore + " after " + fmt.Sprint(j.dh)
+		}
 		first := ""
 		if err != nil {
 			first = "read-ERR:" + errKind(err)
@@ -522,6 +543,11 @@ func reuseSuite(c *Ctx, prop string, fs []gozxing.BarcodeFormat) {
 				jobs[i], family[i] = reuseGenJob(rr, fs[rr.Intn(len(fs))]), i
 			}
 			fresh[i] = newReuseInst().run(jobs[i])
+			if strings.Contains(fresh[i], "CALLER-HINTS-MUTATED") {
+				c.Oracle("reuse", false, "caller-hints-mutated:"+jobs[i].f.String(), "["+jobs[i].String()+"]",
+					"the hint map belongs to the caller (it is commonly shared by many calls); "+c05Short(fresh[i]))
+				return
+			}
 			if strings.Contains(fresh[i], "BITMAP-REUSE-DIFFERS") {
 				c.Oracle("reuse", false, "bitmap-reuse:"+jobs[i].f.String(), "fresh instances, one BinaryBitmap decoded twice: ["+jobs[i].String()+"]", c05Short(fresh[i]))
 				return
